@@ -1,4 +1,4 @@
-CONSTANTS NDecl = 1500 NPair = 200 NLong = 7
+CONSTANTS NDecl = 1500
 SPECIFICATION Spec
 INVARIANTS LegalMethodName OmitsOnlyNone FormsAgree Export
 CHECK_DEADLOCK FALSE
